@@ -46,4 +46,18 @@ pub(crate) mod clock {
     pub fn ago_ms(age_ms: u64) -> Instant {
         at_ms(now_ms() - age_ms)
     }
+
+    /// an Instant `secs` seconds and `ms` (< 1000) milliseconds before the ghost now, built without
+    /// the 64-bit division of `at_ms` (a symbolic `age_ms / 1000` makes the SAT instance hard)
+    pub fn ago_parts(secs: u64, ms: u64) -> Instant {
+        assert!(core::mem::size_of::<Instant>() == core::mem::size_of::<RawInstant>());
+        let now = now_ms(); // a multiple of 1000 unless a harness changed it
+        let borrow = if ms > 0 { 1 } else { 0 };
+        unsafe {
+            core::mem::transmute(RawInstant {
+                secs: (now / 1000 - secs - borrow) as i64,
+                nanos: (if ms > 0 { 1000 - ms } else { 0 } * 1_000_000) as u32,
+            })
+        }
+    }
 }
